@@ -43,6 +43,12 @@ def run(tier):
     cex = [v for t, v in mc.printed if t == "CEX"]
     cov, covstats = stream.cover_histories(pairs=(tier == "thorough"))
     hists += cov
+    git_hists = list(hists)      # two-way git diffs only: what `git diff --word-diff` can print
+    # word-diff mode (the calling git's command line says --word-diff / --color-words): design level
+    mwd = tlc.run_tlc("MC_Stream", cfg="MC_Stream_wd", workers=8, coverage=False, heap="8g", timeout=3400)
+    tlc.require_ok(mwd, "MC_Stream_wd")
+    if mwd.violated:
+        cex += [v for t, v in mwd.printed if t == "CEX"][:3]
     # combined (merge) diffs with conflict regions: design level + transition cover of their own model
     mcc = tlc.run_tlc("MC_Stream", cfg="MC_Stream_cc", workers=8, coverage=False, heap="8g", timeout=3400)
     tlc.require_ok(mcc, "MC_Stream_cc")
@@ -100,6 +106,14 @@ def run(tier):
         plans.append(stream.Plan("payload+diff-so-fancy", [h], ["--diff-so-fancy"], None, fn))
         plans.append(stream.Plan("payload+diff-highlight+markers", [h], ["--diff-highlight", "--keep-plus-minus-markers"], {"keep": True}, fn))
     plans.append(stream.Plan("rs/lookalike", [h for _, h in lookalikes]))
+    # word-diff mode: delta runs the (stub) git itself and reads the mode off its command line
+    wd_hists = [h for h in git_hists if any(l["c"] in ("minus", "plus", "zero") for l in h)]
+    wd_sample = wd_hists if tier == "thorough" else rnd.sample(wd_hists, min(len(wd_hists), 600))
+    plans.append(stream.Plan("word-diff", wd_sample, [], {"wd": True}, cmd=["git", "diff", "--word-diff"]))
+    plans.append(stream.Plan("color-words+tabs2", wd_sample[:300] if tier == "quick" else wd_sample, ["--tabs", "2"], {"wd": True, "tabs": 2},
+                             cmd=["git", "log", "-p", "--color-words"]))
+    for h, fn in pl:
+        plans.append(stream.Plan("payload+word-diff", [h], [], {"wd": True}, fn, cmd=["git", "show", "--word-diff-regex=."]))
     res = stream.execute_plans(plans)
     failed, n = stream.validate_runs([x[4] for x in res])
     log(f"[{PID}] replayed {n} runs, {len(failed)} rejected by Obs_Stream")
@@ -126,7 +140,7 @@ def run(tier):
         "rule": "every Env_Git history up to ReplayLen lines containing a hunk line (TLC enumeration), x configurations; "
                 f"plus every payload string of bounded length over {ALPHABET!r} for each line kind; distinct = distinct (history, configuration)",
         "payload_strings": nstr, "transition_cover": covstats, "transition_cover_combined": covccstats, "transition_cover_submodule": covsubstats,
-        "states_combined_model": mcc.distinct, "diff_u_models": du_stats,
+        "states_combined_model": mcc.distinct, "states_word_diff_model": mwd.distinct, "diff_u_models": du_stats,
         "configs": sorted({x[0].name for x in res}),
         "drift": len(V.drift), "known_findings_hit": len(V.known_hit),
         "design_counterexamples": len(cex),
